@@ -235,6 +235,7 @@ def strategy_impl(draw, tier):
     spaces = draw(st.lists(st.integers(0, 60), max_size=3))
     axis_name = draw(st.sampled_from(HOSTILE))
     return {"names": names, "sig": sig, "targets": targets, "mode": mode, "edit": edit, "spaces": spaces,
+            "param_names": list(draw(st.permutations(["v", "dx", "u", "a", "q", "w", "area", "B", "b", "A", "z9", "z10"]))[:3]),
             "axis_name": axis_name, "shift": draw(st.sampled_from([list(s) for s in SHIFTS])),
             "op": draw(st.sampled_from(["diff", "interp", "min", "max"]))}
 
@@ -312,9 +313,11 @@ def check(case, ctx):
 
         ann = {}
         params = []
+        # the parameters carry drawn names in a drawn (not alphabetical) order: the signature follows the definition order
+        pnames = (case.get("param_names") or []) + [f"a{i}" for i in range(len(p1["in"]))]
         for i, arg in enumerate(p1["in"]):
-            ann[f"a{i}"] = typing.Annotated[np.ndarray, ",".join(f"{n}:{p}" for n, p in arg)]
-            params.append(f"a{i}")
+            ann[pnames[i]] = typing.Annotated[np.ndarray, ",".join(f"{n}:{p}" for n, p in arg)]
+            params.append(pnames[i])
         rets = [typing.Annotated[np.ndarray, ",".join(f"{n}:{p}" for n, p in arg)] for arg in p1["out"]]
         ann["return"] = rets[0] if len(rets) == 1 else typing.Tuple[tuple(rets)]
         src = f"def f({', '.join(params)}):\n    return None\n"
